@@ -7,7 +7,12 @@ source cap), exception-propagation discipline of MagicResolver.__call__ and of e
 output bounds).  Tie: extracted flatten model vs Expander on exhaustively enumerated small universes (cycles, missing templates,
 unbalanced braces) and on cyclic universes recursing twice inside lazily fetched magic arguments (OCaml strategies for
 #ifexpr/lc/padleft/#iferror).  Search: every registered name x 0..3 args x 9 argument shapes, the full numeric grammar at every
-argument position, the recursion family under a dispatch budget, all under CPU and output-size limits proportional to the input."""
+argument position, the recursion family under a dispatch budget, #expr OPERATOR CHAINS (each binary operator 3..8 times left-
+associatively with operands at the extremes of every cheap range, plain / parenthesised / through functions / right-nested, chains of
+prefix functions, random mixed chains), all under CPU and output-size limits proportional to the input.
+#expr: the translator pins the callable registered for each of the 34 operators (`^` = math.pow, ...) and its size class; coq/C03/
+ExprSize*.v prove that with these classes every intermediate value has at most (bits of the literals) + 1025 * (operators) bits, and
+refute it for an exact integer power (9^64^64..^64, k >= 2 links: more than 3 * 64^k bits)."""
 import json
 
 from vt import core
